@@ -400,8 +400,11 @@ impl Check for C14 {
     fn assumptions(&self) -> Vec<String> {
         vec!["resize shrinks only by trailing free pages (precondition of try_shrink)".into(), "free is called only on live blocks at their own order".into()]
     }
+    fn fuzz_runs(&self) -> u64 {
+        4_000_000
+    }
     fn plan(&self, tier: Tier) -> Plan {
-        Plan { cases: tier.pick(300_000, 20_000_000), max_recs: 80, max_shrink_iters: 5000, workers: 16 }
+        Plan { cases: tier.pick(300_000, 6_000_000), max_recs: 80, max_shrink_iters: 5000, workers: 16 }
     }
     fn run(&self, tape: &Tape, want_sample: bool) -> Result<CaseOut, Failure> {
         let mut out = CaseOut { evals: 1, ..Default::default() };
